@@ -16,6 +16,10 @@ Sub-checks
   sitk    FlowField.sitk() stores world vectors (+ explicit axes forms); from_sitk(...).axes(a) returns
   file    FlowField.write / read through a .nrrd file (formats are C18's business)
   default axes=None at construction means CUBE_CORNERS / CUBE by the grid's align_corners flag
+  tovec   Grid.transform_vectors(v, a, b, to_grid=target) for all 4x4 (a, b) and every sample target == reference
+  history on ONE object: op, op again (bit-identical, receiver untouched), in-place update of the vectors
+          (mul_, add_, tensor().copy_), op again == the op on a fresh object with the updated vectors; op in
+          {axes(b) x 4, warp_image, exp}
   helpers core/flow.py normalize_flow / denormalize_flow (argument-form product) == GRID <-> CUBE[_CORNERS]
 """
 from __future__ import annotations
@@ -28,10 +32,37 @@ import tempfile
 import numpy as np
 import torch
 
-from mc.core import Acc, exc_text, guarded, h64, tensor_bytes
+from mc.core import Acc, h64, tensor_bytes
+from mc.core import exc_text as _exc_text
+from mc.core import guarded as _guarded
 from ref import flowfield as ff
 from ref import grid as rg
 from ref.grid import AXES, WORLD, RefGrid
+
+
+def guarded(fn, *a, **kw):
+    """mc.core.guarded + defusing of the caught exception: its text (with the deepali file:line) is computed at once and
+    the traceback frames are cleared immediately. Otherwise the frames of the failed library call (e.g. a BytesIO with an
+    exported memoryview inside the MetaImage reader) stay alive until the cyclic garbage collector frees them in
+    arbitrary order, which was seen to crash the interpreter (segmentation fault during GC) on a mutated tree."""
+    import traceback
+
+    st, v = _guarded(fn, *a, **kw)
+    if st == "raises":
+        try:
+            v._verif_text = _exc_text(v)
+            traceback.clear_frames(v.__traceback__)
+        except Exception:  # noqa: BLE001
+            pass
+        v.__traceback__ = None
+        v.__context__ = None
+        v.__cause__ = None
+    return st, v
+
+
+def exc_text(e):
+    return getattr(e, "_verif_text", None) or _exc_text(e)
+
 
 PROPERTY = "C10"
 RULE = (
@@ -50,7 +81,7 @@ ASSUMPTIONS = [
 ]
 MIN_NONTRIVIAL = {"quick": 12000, "thorough": 60000}
 MIN_OUTCOMES = {"quick": 12000, "thorough": 60000}
-MIN_SUB_TRACES = {"axes": 20000, "warp": 800, "sample": 3000, "exp": 1000, "sitk": 300, "file": 300, "helpers": 800}
+MIN_SUB_TRACES = {"axes": 20000, "warp": 800, "sample": 3000, "exp": 1000, "sitk": 300, "file": 300, "helpers": 800, "tovec": 4000, "history": 4000}
 
 EPS32 = 2.0 ** -23
 C = 64.0
@@ -172,7 +203,7 @@ def exp_menu(tier):
 
 
 def target_names(tier):
-    t = ["same", "flipac", "finer", "sub", "rot", "outside"]
+    t = ["same", "flipac", "finer", "sub", "rot", "outside", "resT", "resF"]
     if tier == "thorough":
         t += ["coarse", "rot2"]
     return t
@@ -190,6 +221,14 @@ def target_spec(src: dict, name: str, item: int = 0) -> dict:
         return t
     if name == "flipac":
         t["ac"] = not src["ac"]
+        return t
+    if name in ("resT", "resF"):
+        # same flag as the source, another size: resT keeps the corner samples (Grid.resize with align_corners=True),
+        # resF keeps the extent n * s (align_corners=False). For the source flag T (F) the target resT (resF) has the
+        # same Grid.domain() as the source, although CUBE (CUBE_CORNERS) vectors still change by n(m-1)/((n-1)m).
+        m = n + 3
+        t["size"] = [int(v) for v in m]
+        t["spacing"] = [float(v) for v in (r.s * (n - 1) / (m - 1) if name == "resT" else r.s * n / m)]
         return t
     if name == "finer":
         t["size"] = [int(2 * v - 1) for v in n]
@@ -1015,6 +1054,173 @@ def run_helpers(ctx: Ctx, p: dict):
 
 
 # ---------------------------------------------------------------------------
+# sub-check: Grid.transform_vectors(v, axes, to_axes, to_grid=target) == the reference vector map between two grids
+def run_tovec(ctx: Ctx, target: str):
+    from deepali.core.grid import Axes
+
+    rec = Rec()
+    tspec = target_spec(ctx.cfg["grids"][0], target)
+    rt = rg.ref_grid(tspec)
+    r = ctx.rgrids[0]
+    st, gg = guarded(lambda: (rg.real_grid(ctx.cfg["grids"][0]), rg.real_grid(tspec)))
+    if st == "raises":
+        rec.add(f"C10/construct-grid/raises={type(gg).__name__}", exc_text(gg))
+        return rec
+    g, tg = gg
+    tol = C * EPS32 * 3 * max(ctx.cond, ff.cond_spacing(rt)) * ctx.uscale
+    for a in AXES:
+        v = ctx.start_arrays(a)[0]
+        den = ff.to_world(r, v.astype(np.float64), a)
+        t = torch.from_numpy(np.moveaxis(v, 0, -1).copy())
+        for b in AXES:
+            pre = f"C10/tovec/target={target}/{a}->{b}"
+            st, w = rec.call(g.transform_vectors, t, axes=Axes(a), to_axes=Axes(b), to_grid=tg)
+            if st == "raises":
+                rec.add(f"{pre}/raises={type(w).__name__}", exc_text(w))
+                continue
+            if not isinstance(w, torch.Tensor) or w.shape != t.shape:
+                rec.add(f"{pre}/shape", f"returned {type(w).__name__} {tuple(getattr(w, 'shape', ()))}")
+                continue
+            ow = ff.to_world(rt, np.moveaxis(w.double().numpy(), -1, 0), b)
+            err = float(np.abs(ow - den).max())
+            if not err <= tol:
+                rec.add(f"{pre}/value", f"vectors w.r.t. the other grid denote a different world displacement: error {err:.3e} > tol {tol:.2e} (max|u| {ctx.umax:.3g})")
+            st2, same = guarded(lambda: bool(torch.equal(w, t)))
+            if st2 == "ok" and not same:
+                rec.nontrivial += 1
+            rec.results.append(("tovec", target, a, b, tensor_bytes(w)))
+    return rec
+
+
+# ---------------------------------------------------------------------------
+# sub-check: histories on ONE object: op, op again (bit-identical, receiver untouched), in-place update of the
+# vectors, op again == the same op on a fresh object holding the updated vectors (and the grid's own vector map)
+UPDATES = ("mul_", "add_", "copy_")
+
+
+def history_ops(tier):
+    ops = [("axes", b) for b in AXES] + [("warp", None), ("exp", 3)]
+    return ops
+
+
+def _apply_update(F, upd: str, single: bool):
+    """In-place change of the vectors on the same storage; returns nothing."""
+    if upd == "mul_":
+        F.mul_(0.5)
+    elif upd == "add_":
+        F.add_(torch.full_like(F.tensor(), 0.125) * F.tensor().abs().max())
+    else:
+        t = F.tensor()
+        t.copy_(t.flip(-1) * 0.75)
+
+
+def _do_hist_op(ctx: Ctx, F, grids, op, arg):
+    from deepali.core.grid import Axes
+
+    if op == "axes":
+        return F.axes(Axes(arg))
+    if op == "exp":
+        return F.exp(steps=arg)
+    image, _ = real_image(ctx, grids, "Image" if ctx.form in ("single", "batch1", "shared2") else "ImageBatch")
+    return F.warp_image(image)
+
+
+def _bits(x, single):
+    return (type(x).__name__, tensor_bytes(x.tensor()), str(getattr(x, "_axes", "")), b"".join(grid_key(g) for g in grids_of(x, single)))
+
+
+def run_history(ctx: Ctx, op: str, arg, upd: str, starts=AXES):
+    from deepali.core.grid import Axes
+    from deepali.data.flow import FlowField, FlowFields
+
+    rec = Rec()
+    form = ctx.form
+    oname = f"{op}({arg})" if arg is not None else op
+    for a in starts:
+        pre = f"C10/history/{form}/op={oname}/update={upd}/start={a}"
+        st, built = guarded(ctx.build, a)
+        if st == "raises":
+            rec.add(f"C10/construct/{form}/start={a}/raises={type(built).__name__}", exc_text(built))
+            continue
+        F, grids = built
+        out_single = ctx.single and not (op == "warp" and False)
+        recv0 = _bits(F, ctx.single)
+        st, r1 = rec.call(_do_hist_op, ctx, F, grids, op, arg)
+        if st == "raises":
+            rec.add(f"{pre}/first/raises={type(r1).__name__}", exc_text(r1))
+            continue
+        st, b1 = guarded(_bits, r1, out_single)
+        if st == "raises":
+            rec.add(f"{pre}/first/unobservable", exc_text(b1))
+            continue
+        if _bits(F, ctx.single) != recv0:
+            rec.add(f"{pre}/receiver-changed", "the operation changed the data, label or grids of the flow field it was called on")
+            continue
+        st, r1b = rec.call(_do_hist_op, ctx, F, grids, op, arg)
+        if st == "raises":
+            rec.add(f"{pre}/repeat/raises={type(r1b).__name__}", exc_text(r1b))
+            continue
+        st, b1b = guarded(_bits, r1b, out_single)
+        if st == "raises" or b1b != b1:
+            rec.add(f"{pre}/repeat/not-bit-identical", "the same operation on the unchanged object gave a different result the second time")
+            continue
+        # in-place update of the vectors (same storage, same Python object)
+        st, e = rec.call(_apply_update, F, upd, ctx.single)
+        if st == "raises":
+            rec.add(f"C10/history/{form}/update={upd}/raises={type(e).__name__}", exc_text(e))
+            continue
+        st, cur = guarded(lambda: F.tensor().detach().clone())
+        if st == "raises":
+            rec.add(f"{pre}/update/unobservable", exc_text(cur))
+            continue
+        if tensor_bytes(cur) == recv0[1]:
+            rec.add(f"C10/history/{form}/update={upd}/no-effect", "in-place update did not change the vectors")
+            continue
+        st, r2 = rec.call(_do_hist_op, ctx, F, grids, op, arg)
+        if st == "raises":
+            rec.add(f"{pre}/after-update/raises={type(r2).__name__}", exc_text(r2))
+            continue
+        # the same operation on a fresh object that holds the updated vectors
+        def fresh():
+            if ctx.single:
+                return FlowField(cur.clone(), grids[0], Axes(a))
+            return FlowFields(cur.clone(), grids[0] if form in ("batch1", "shared2") else list(grids), Axes(a))
+
+        st, G = guarded(fresh)
+        if st == "raises":
+            rec.add(f"C10/construct/{form}/start={a}/raises={type(G).__name__}", exc_text(G))
+            continue
+        st, r2f = rec.call(_do_hist_op, ctx, G, grids, op, arg)
+        if st == "raises":
+            rec.add(f"{pre}/fresh/raises={type(r2f).__name__}", exc_text(r2f))
+            continue
+        st, b2 = guarded(_bits, r2, out_single)
+        st2, b2f = guarded(_bits, r2f, out_single)
+        if st == "raises" or st2 == "raises":
+            rec.add(f"{pre}/after-update/unobservable", "result could not be observed")
+            continue
+        if b2 != b2f:
+            stale = " (it is bit-identical to the result BEFORE the update: stale)" if b2 == b1 else ""
+            rec.add(f"{pre}/after-update/differs-from-fresh", "after an in-place update of the vectors the operation does not give the result of the same operation on a fresh flow field with the same vectors" + stale)
+        if op == "axes":
+            # the grid's own vector map of the CURRENT data
+            obs = items_of(r2, ctx.single)
+            for j, g in enumerate(grids):
+                v = (cur if ctx.single else cur[j]).movedim(0, -1)
+                rec.trans += 1
+                st, w = guarded(g.transform_vectors, v, axes=Axes(a), to_axes=Axes(arg))
+                if st == "ok":
+                    w = w.movedim(-1, 0).double().numpy()
+                    d = float(np.abs(w - obs[j]).max())
+                    if not d <= 8 * EPS32 * max(float(np.abs(w).max()), 1e-30):
+                        rec.add(f"{pre}/after-update/vs-transform_vectors", f"item {j}: axes() differs from Grid.transform_vectors of the current vectors by {d:.3e}")
+        if b2 != b1:
+            rec.nontrivial += 1
+        rec.results.append(("history", oname, upd, b2[1]))
+    return rec
+
+
+# ---------------------------------------------------------------------------
 def op_cases(ctx: Ctx, tier: str):
     """All (sub, params) cases of the operation sub-checks for a configuration."""
     out = []
@@ -1027,6 +1233,12 @@ def op_cases(ctx: Ctx, tier: str):
     for scale, steps in exp_menu(tier):
         out.append(("exp", {"scale": scale, "steps": steps}))
     out.append(("default", {}))
+    if ctx.form in ("single", "perfield2"):  # the map depends on grid 0 only
+        for t in target_names(tier):
+            out.append(("tovec", {"target": t}))
+    for op, arg in history_ops(tier):
+        for upd in UPDATES:
+            out.append(("history", {"op": op, "arg": arg, "update": upd}))
     if ctx.form != "batch1":  # batch1 holds the same tensors as single
         for p in helper_cases():
             out.append(("helpers", p))
@@ -1062,6 +1274,10 @@ def _run_op(ctx: Ctx, sub: str, p: dict, starts=AXES) -> Rec:
         return run_helpers(ctx, p)
     if sub == "default":
         return run_default(ctx)
+    if sub == "tovec":
+        return run_tovec(ctx, p["target"])
+    if sub == "history":
+        return run_history(ctx, p["op"], p["arg"], p["update"], starts)
     raise KeyError(sub)
 
 
@@ -1087,7 +1303,7 @@ def run_shard(shard) -> Acc:
             acc.outcome(k)
             if rec.nontrivial:
                 acc.nontriv(k)
-        acc.trace(sub, n=1 if sub in ("helpers", "default") else len(AXES), depth=1)
+        acc.trace(sub, n=1 if sub in ("helpers", "default") else (16 if sub == "tovec" else len(AXES)), depth=1)
         if len(acc.samples) < 3 and sub in ("sample", "exp"):
             acc.sample({"config": brief, "sub": sub, "params": p, "starts": list(AXES), "verdict": "ok" if not rec.problems else "violation"})
     return acc
